@@ -160,6 +160,48 @@ def check(ctx):
             if isinstance(n, ast.Return) and isinstance(n.value, ast.Call) and norm(n.value.func) == "self.coercer":
                 ctx.fail("C14.R4", m.qualname, n, "a node returns the coercer's result without any check", m.module.relpath, n.lineno)
 
+    ctx.rule("C14.R6", "a coercer is consulted exactly when one is configured, after the strict attempt failed; Optional accepts None only for None or a datum the coercer maps to None", floor=3)
+    from ..boolx import BoolEval, Unknown, show, valuations
+    from ..pathcond import HANDLER, complements, parents_of, path_condition
+    atoms6 = complements({"self.coercer is not None": "has_coercer", "self.coercer": "has_coercer", "data is None": "data_none", HANDLER: "failed",
+                          "self.coercer(NoneType, data) is None": "coerced_none"})
+    for m in own_methods(deser_nodes(model)):
+        sites = [n for n in ast.walk(m.node) if isinstance(n, ast.Call) and norm(n.func) == "self.coercer"]
+        if not sites:
+            continue
+        has_optional_attr = "Optional" in norm(m.cls.annotations.get("coercer", ast.Constant(value=""))) if m.cls is not None else False
+        pm = parents_of(m.node)
+        ev6 = BoolEval(atoms6)
+        for c in sites:
+            construct = f"{m.qualname}:coercer-call"
+            if not has_optional_attr:
+                ctx.ok("C14.R6", construct, "the coercer attribute is not Optional: the node is only built when a coercer is configured", where=m.loc)
+                continue
+            try:
+                got = ev6.compile(path_condition(m.node, c, pm))
+                vals = list(valuations(["has_coercer", "data_none", "failed", "coerced_none"]))
+                without = [v for v in vals if not v["has_coercer"] and got(v)]
+                strict_first = [v for v in vals if got(v) and not v["failed"]]
+                reachable = [v for v in vals if got(v)]
+            except Unknown as err:
+                ctx.undecided("C14.R6", f"{construct}: {err}")
+                continue
+            ctx.check(not without and not strict_first and bool(reachable), "C14.R6", construct, c,
+                      f"`{short(c, 50)}` is " + ("reached although no coercer is configured (None is called: TypeError, or swallowed by the handler: coercion silently disabled)" if without else "consulted before the strict attempt failed" if strict_first else "unreachable: coercion is disabled"),
+                      m, c, detail="reached iff coercer configured and strict attempt failed")
+    om6 = model.func(f"{DESER_MOD}.OptionalMethod.deserialize")
+    pm = parents_of(om6.node)
+    ev6 = BoolEval(atoms6)
+    rets = [r for r in ast.walk(om6.node) if isinstance(r, ast.Return) and isinstance(r.value, ast.Constant) and r.value.value is None]
+    try:
+        fs = [ev6.compile(path_condition(om6.node, r, pm)) for r in rets]
+        bad = next((v for v in valuations(["has_coercer", "data_none", "failed", "coerced_none"], lambda v: not (v["data_none"] and v["failed"]))
+                    if any(f(v) for f in fs) != bool(v["data_none"] or (v["failed"] and v["has_coercer"] and v["coerced_none"]))), None)
+        ctx.check(bool(rets) and bad is None, "C14.R6", f"{om6.qualname}:returns-None", rets[0] if rets else om6.node.body[0],
+                  f"Optional returns None under [{show(bad) if bad else ''}]: None must be produced only for None, or for a rejected datum that the configured coercer maps to None", om6, rets[0] if rets else om6.node, detail="data is None or (strict failed and coercer and coerced is None)")
+    except Unknown as err:
+        ctx.undecided("C14.R6", f"{om6.qualname}: {err}")
+
     ctx.rule("C14.R5", "every coercion failure is a ValidationError (escape analysis of coerce)", floor=1)
     an = Analyzer(model)
     ret, escaping, reports = an.analyse(co, {"cls": T, "data": TOP})
@@ -168,6 +210,9 @@ def check(ctx):
 
 
 def mutants(mb):
+    mb.add_text("literal-coercer-guard-flipped", "apischema/deserialization/methods.py", "        except KeyError:\n            if self.coercer is not None:\n", "        except KeyError:\n            if self.coercer is None:\n", "C14.R6", "LiteralMethod")
+    mb.add_text("optional-coercer-guard-or", "apischema/deserialization/methods.py", "            if self.coercer is not None and self.coercer(NoneType, data) is None:", "            if self.coercer is None or self.coercer(NoneType, data) is None:", "C14.R6", "OptionalMethod")
+    mb.add_text("optional-none-for-any-failure", "apischema/deserialization/methods.py", "            if self.coercer is not None and self.coercer(NoneType, data) is None:", "            if self.coercer is not None:", "C14.R6", "OptionalMethod")
     C = "apischema/deserialization/coercion.py"
     M = "apischema/deserialization/methods.py"
     mb.add_text("identity-after-bool", C, "    elif isinstance(data, cls):\n        return data\n    elif cls is bool:", "    elif cls is bool and not isinstance(data, bool):", "C14.R1", "coerce")
